@@ -32,7 +32,9 @@ func runC02(c *Ctx) {
 	ruleLayersPropagateFailure(c, "R2.6")
 	ruleErrorsOfPersistenceChecked(c, "R2.8", "internal/chain", "internal/core")
 	ruleResyncDecidedByRequest(c, "R2.1")
-	ruleMemDB(c, "R2.7") // the in-memory back-end keeps the newest rounds, ordered and without duplicates
+	ruleOpenFailureNotADecision(c, "R2.10")
+	ruleVerifyBeforePut(c, "R2.9", nil) // BLS signatures are unique: two nodes can hold different bytes for a round only if one stored a beacon it did not verify
+	ruleMemDB(c, "R2.7")                // the in-memory back-end keeps the newest rounds, ordered and without duplicates
 }
 
 // R2.6: every layer of the store stack reports success only when the layer below stored the beacon. A layer that swallows
@@ -147,6 +149,18 @@ func ruleLayering(c *Ctx, rule string) {
 		}
 	})
 	c.Floor(rule, "store-stack consumers in newChainStore", n, 2)
+	// the repair path writes rounds below the head: it needs the database itself, no layer that compares with the head
+	nb := 0
+	forEachInstr(fn, func(_ *ssa.BasicBlock, _ int, in ssa.Instruction) {
+		st, ok := in.(*ssa.Store)
+		if !ok || !fieldAddrIs(st.Addr, "internal/chain/beacon.SyncConfig", "BoltdbStore") {
+			return
+		}
+		nb++
+		c.Ok(rule, "newChainStore gives the repair path the raw store", shortPos(c.P, in), stripConv(st.Val) == ssa.Value(raw),
+			"SyncConfig.BoltdbStore = "+trimTemps(pathOf(st.Val))+"; a layer that checks a beacon against the head refuses every round fetched to repair the past")
+	})
+	c.Floor(rule, "SyncConfig.BoltdbStore assignments", nb, 1)
 	// insecureStore: only Put on the resync branch
 	tn := c.P.Fn("internal/chain/beacon.(*SyncManager).tryNode")
 	fromName := "from"
